@@ -30,13 +30,13 @@ pub fn plan(prop: &str, tier: &str) -> Vec<RunSpec> {
     let joins = &[JA, TJA][..];
     let mut p = vec![];
     match prop {
-        "C01" => cross(all, &[(Generic, 3), (TaskSwap, 3), (Budget, 2), (Groups, 2), (Starve, 1), (WakerLife, 1), (StaleBacklog, 1)], &mut p),
-        "C02" => cross(collections, &[(Generic, 3), (Budget, 1), (Groups, 3), (Cap, 1), (Wrap, 1), (Oscillate, 1), (Conveyor, 1)], &mut p),
+        "C01" => cross(all, &[(Flood, 1), (Generic, 3), (TaskSwap, 3), (Budget, 2), (Groups, 2), (Starve, 1), (WakerLife, 1), (StaleBacklog, 1)], &mut p),
+        "C02" => cross(collections, &[(Flood, 1), (Generic, 3), (Budget, 1), (Groups, 3), (Cap, 1), (Wrap, 1), (Oscillate, 1), (Conveyor, 1)], &mut p),
         "C03" => cross(&[FUB, FU, FOB, FO, MB, MU, BU, TBO, FEC, JA, TJA], &[(WakerLife, 4), (Generic, 2), (Groups, 2), (Cap, 1), (StaleBacklog, 1)], &mut p),
         "C04" => cross(&[FOB, FO, BO, TBO, JA, TJA], &[(Wrap, 4), (Generic, 2), (Stall, 1), (Budget, 1), (Groups, 1)], &mut p),
-        "C05" => cross(all, &[(Generic, 3), (StaleBacklog, 2), (Budget, 1), (Groups, 1)], &mut p),
+        "C05" => cross(all, &[(Flood, 1), (Generic, 3), (StaleBacklog, 2), (Budget, 1), (Groups, 1)], &mut p),
         "C06" => {
-            cross(all, &[(Generic, 3), (WakerLife, 2), (AfterReady, 2), (Stall, 1), (Groups, 1)], &mut p);
+            cross(all, &[(Flood, 1), (Generic, 3), (WakerLife, 2), (AfterReady, 2), (Stall, 1), (Groups, 1)], &mut p);
             // crash-point sweep: every prefix of a base trace followed by cancellation
             let n = p.len();
             let every = if tier == "quick" { 6 } else { 3 };
@@ -44,20 +44,20 @@ pub fn plan(prop: &str, tier: &str) -> Vec<RunSpec> {
                 p[i].sweep = true;
             }
         }
-        "C07" => cross(joins, &[(AfterReady, 4), (Generic, 2), (Budget, 1), (Oscillate, 1)], &mut p),
+        "C07" => cross(joins, &[(Flood, 1), (AfterReady, 4), (Generic, 2), (Budget, 1), (Oscillate, 1)], &mut p),
         "C08" => cross(all, &[(Generic, 3), (Groups, 3), (Budget, 1), (Wrap, 1)], &mut p),
-        "C09" => cross(adapters, &[(Generic, 4), (Budget, 1), (Starve, 1), (Stall, 1), (Oscillate, 1)], &mut p),
-        "C10" => cross(adapters, &[(Generic, 4), (Cap, 2), (Stall, 1), (Budget, 1), (Oscillate, 1)], &mut p),
-        "C11" => cross(merges, &[(Generic, 4), (Groups, 2), (Budget, 1), (Starve, 1), (Oscillate, 1)], &mut p),
-        "C12" => cross(all, &[(Generic, 3), (StaleBacklog, 2), (Budget, 1), (Groups, 2)], &mut p),
-        "C13" => cross(&[FUB, FU, FOB, FO, MB, MU, BU, BO, TBU, TBO, FEC], &[(Starve, 4), (Budget, 2), (Groups, 2), (Generic, 1), (Conveyor, 3)], &mut p),
+        "C09" => cross(adapters, &[(Flood, 1), (Generic, 4), (Budget, 1), (Starve, 1), (Stall, 1), (Oscillate, 1)], &mut p),
+        "C10" => cross(adapters, &[(Flood, 1), (Generic, 4), (Cap, 2), (Stall, 1), (Budget, 1), (Oscillate, 1)], &mut p),
+        "C11" => cross(merges, &[(Flood, 1), (Generic, 4), (Groups, 2), (Budget, 1), (Starve, 1), (Oscillate, 1)], &mut p),
+        "C12" => cross(all, &[(Flood, 1), (Generic, 3), (StaleBacklog, 2), (Budget, 1), (Groups, 2)], &mut p),
+        "C13" => cross(&[FUB, FU, FOB, FO, MB, MU, BU, BO, TBU, TBO, FEC], &[(Flood, 1), (Starve, 4), (Budget, 2), (Groups, 2), (Generic, 1), (Conveyor, 3)], &mut p),
         "C14" => cross(all, &[(StaleBacklog, 3), (Generic, 3), (Groups, 2), (Budget, 1), (TaskSwap, 1)], &mut p),
         "C15" => cross(&[FUB, FU, FOB, FO, MB, MU, BU, BO, TBU, TBO, FEC], &[(Cap, 4), (Generic, 2), (Wrap, 1), (Groups, 1)], &mut p),
-        "C16" => cross(&[BO, TBO], &[(Stall, 4), (Generic, 3), (Budget, 1), (Wrap, 1)], &mut p),
+        "C16" => cross(&[BO, TBO], &[(Flood, 1), (Stall, 4), (Generic, 3), (Budget, 1), (Wrap, 1)], &mut p),
         "C17" => cross(&[FUB, FU, FOB, FO, MB, MU, BU, BO, TBU, TBO], &[(Generic, 4), (Cap, 1), (Stall, 1), (Groups, 1)], &mut p),
-        "C18" => cross(&[FUB, FU, FO, MB, MU, BU, TBU, FEC, JA, TJA], &[(Oscillate, 3), (Conveyor, 3), (Generic, 2), (WakerLife, 1), (Groups, 2)], &mut p),
+        "C18" => cross(&[FUB, FU, FO, MB, MU, BU, TBU, FEC, JA, TJA], &[(Flood, 1), (Oscillate, 3), (Conveyor, 3), (Generic, 2), (WakerLife, 1), (Groups, 2)], &mut p),
         // everything: used for determinism proofs and smoke runs
-        _ => cross(all, &[(Generic, 1), (Budget, 1), (Groups, 1), (Starve, 1), (Oscillate, 1), (Wrap, 1), (Cap, 1), (StaleBacklog, 1), (Stall, 1), (AfterReady, 1), (WakerLife, 1), (TaskSwap, 1), (Conveyor, 1)], &mut p),
+        _ => cross(all, &[(Generic, 1), (Budget, 1), (Groups, 1), (Starve, 1), (Oscillate, 1), (Wrap, 1), (Cap, 1), (StaleBacklog, 1), (Stall, 1), (AfterReady, 1), (WakerLife, 1), (TaskSwap, 1), (Conveyor, 1), (Flood, 1)], &mut p),
     }
     p
 }
@@ -66,8 +66,9 @@ pub fn runs(prop: &str, tier: &str) -> u64 {
     let quick = match prop {
         "C06" => 60_000,
         "C18" => 60_000,
-        "C13" => 80_000,
-        "C01" | "C09" | "C11" => 200_000,
+        "C13" => 50_000,
+        "C01" => 150_000,
+        "C09" | "C11" => 200_000,
         _ => 300_000,
     };
     if tier == "quick" {
